@@ -175,8 +175,10 @@ func (a *Application) filterModelsByProvider(ctx context.Context, models []*doma
 		// Models can be available from multiple sources. Check if any of them
 		// match our provider constraint.
 		hasProvider := false
+		sourcesKnown := false
 		for _, source := range model.SourceEndpoints {
 			if endpointType, ok := endpointTypes[source.EndpointURL]; ok {
+				sourcesKnown = true
 				normalisedType := NormaliseProviderType(endpointType)
 				if providerProfile.IsCompatibleWith(normalisedType) {
 					hasProvider = true
@@ -184,8 +186,11 @@ func (a *Application) filterModelsByProvider(ctx context.Context, models []*doma
 				}
 			}
 		}
-		// Model aliases provide another way to determine provider association
-		if !hasProvider {
+		// Model aliases provide another way to determine provider association, but they record
+		// where a name was ever seen, not where the model is now: they only decide for models
+		// whose source endpoints cannot be typed. Otherwise a model that moved to another
+		// provider's endpoint stays listed under the old provider's prefix.
+		if !hasProvider && !sourcesKnown {
 			for _, alias := range model.Aliases {
 				normalisedSource := NormaliseProviderType(alias.Source)
 				if providerProfile.IsCompatibleWith(normalisedSource) {
